@@ -376,8 +376,13 @@ def run_check(prop, tier, seed):
         ctx.driver = Driver(prop.DRIVER)
         try:
             disagreements = list(prop.correspondence(ctx) or [])
-        except Exception:
-            infra.append({'kind': 'correspondence-crash', 'detail': traceback.format_exc()[-3000:]})
+        except Exception as e:
+            if type(e).__name__ == 'HarnessBlind':
+                # a private detail the correspondence observes cannot be located in this tree: the
+                # correspondence no longer checks (never a failing input by itself)
+                broken.append({'kind': 'harness-blind', 'name': prop.ID + ' correspondence', 'detail': str(e)})
+            else:
+                infra.append({'kind': 'correspondence-crash', 'detail': traceback.format_exc()[-3000:]})
     corr_evals = ctx.evaluations
     if disagreements:
         broken.append({'kind': 'correspondence', 'name': prop.ID + ' model/implementation',
@@ -389,8 +394,11 @@ def run_check(prop, tier, seed):
     try:
         seeds = [d.case for d in disagreements]
         failures = list(prop.search(ctx, seeds, full=bool(broken) or bool(ctx.drift)) or [])
-    except Exception:
-        infra.append({'kind': 'search-crash', 'detail': traceback.format_exc()[-3000:]})
+    except Exception as e:
+        if type(e).__name__ == 'HarnessBlind':
+            broken.append({'kind': 'harness-blind', 'name': prop.ID + ' search', 'detail': str(e)})
+        else:
+            infra.append({'kind': 'search-crash', 'detail': traceback.format_exc()[-3000:]})
     search_evals = ctx.evaluations - corr_evals
 
     # ---- 6. classify against the known findings --------------------------
